@@ -22,6 +22,8 @@ def main(tier):
     asserts.schema_required(P, rep)
     asserts.schema_closed(P, rep)
     asserts.schema_keys(P, rep)
+    asserts.schema_writers(P, rep)
+    asserts.json_member_order(P, rep)
     asserts.dead_checks(P, rep)
     asserts.string_dispatch(P, rep)
     guard.input_gates(P, rep)
